@@ -43,15 +43,30 @@ func (rp *replayer) pkgName() string {
 }
 
 func (rp *replayer) build(set string, ov *overlayInfo) string {
-	if bin, ok := rp.bins[set]; ok {
+	return rp.buildWith(set, ov, false)
+}
+
+func (rp *replayer) buildWith(set string, ov *overlayInfo, race bool) string {
+	key := set
+	if race {
+		key = set + "+race"
+	}
+	if bin, ok := rp.bins[key]; ok {
 		return bin
 	}
+	defer func(k string) {
+		if k != set {
+			rp.bins[k] = rp.bins[set]
+			delete(rp.bins, set)
+		}
+	}(key)
+	delete(rp.bins, set)
 	rp.bins[set] = ""
 	if rp.tmp == "" || ov == nil {
 		rp.errs[set] = "no temp dir / overlay"
 		return ""
 	}
-	dir := filepath.Join(rp.tmp, "set_"+set)
+	dir := filepath.Join(rp.tmp, "set_"+key)
 	os.MkdirAll(dir, 0o755)
 	replace := map[string]string{}
 	n := 0
@@ -125,7 +140,11 @@ func (rp *replayer) build(set string, ov *overlayInfo) string {
 	os.WriteFile(ovPath, ovJSON, 0o644)
 	bin := filepath.Join(dir, "replay.test")
 	rel, _ := filepath.Rel(repoDir, pkgDir)
-	cmd := exec.Command("go", "test", "-c", "-vet=off", "-overlay", ovPath, "-o", bin, "./"+rel)
+	args := []string{"test", "-c", "-vet=off", "-overlay", ovPath, "-o", bin}
+	if race {
+		args = append(args, "-race")
+	}
+	cmd := exec.Command("go", append(args, "./"+rel)...)
 	cmd.Dir = repoDir
 	cmd.Env = append(os.Environ(), "GOFLAGS=-mod=mod", "GOPROXY=off", "GOCACHE="+goCache())
 	out, err := cmd.CombinedOutput()
@@ -167,11 +186,29 @@ func (rp *replayer) run(bin, replayFile string, timeout time.Duration, env ...st
 }
 
 func (rp *replayer) replay(vr *violationReport, ov *overlayInfo) string {
+	v := vr.Violation
+	if v.Kind == "race" {
+		// confirm with the Go race detector on the native build
+		bin := rp.buildWith(vr.ScaleSet, ov, true)
+		if bin == "" {
+			return "build-failed"
+		}
+		last := ""
+		for i := 0; i < 12; i++ {
+			out, _ := rp.run(bin, vr.Replay, 120*time.Second, "GOMAXPROCS="+[]string{"4", "16", "2"}[i%3])
+			last = out
+			if strings.Contains(out, "WARNING: DATA RACE") {
+				os.WriteFile(strings.TrimSuffix(vr.Replay, ".json")+".native.txt", []byte(trunc(out, 20000)), 0o644)
+				return "reproduced"
+			}
+		}
+		os.WriteFile(strings.TrimSuffix(vr.Replay, ".json")+".native.txt", []byte(trunc(last, 20000)), 0o644)
+		return "not-reproduced"
+	}
 	bin := rp.build(vr.ScaleSet, ov)
 	if bin == "" {
 		return "build-failed"
 	}
-	v := vr.Violation
 	tries := 1
 	schedDependent := false
 	for _, c := range v.Choices {
